@@ -7,7 +7,7 @@ res={}
 for log in sys.argv[1:]:
     cur=None
     for l in open(log):
-        m=re.match(r'== (C\d\d) (C\d\d-R\d|R\d) (\S+)',l)
+        m=re.match(r'== (C\d\d) (C\d\d-[RH]\d|[RH]\d) (\S+)',l)
         if m:
             rid=m.group(2) if '-' in m.group(2) else m.group(1)+'-'+m.group(2)
             cur=rid; res[cur]={'verdict':m.group(3),'reported':[]}
